@@ -19,7 +19,8 @@ from probe import run_probe
 NS = 21
 RAWBYTES = bytes(x for x in range(1, 256) if x not in (0x2a, 0x2b, 0x7b))
 # replays of the known finding "nullable loop body: catastrophic backtracking" (DESIGN.md appendix A, item 9)
-CORPUS = [("(a*)*b", "aaaaaaaaaaaaaaaaaaaaaaaa\n"), ("(()?)*x", "ab\n")]
+NESTED_CORPUS = ("(a+)*b",)        # KF-nested-loop: a loop inside a loop, body not nullable
+CORPUS = [("(a*)*b", "aaaaaaaaaaaaaaaaaaaaaaaa\n"), ("(()?)*x", "ab\n"), ("(a+)*b", "a" * 40 + "\n")]
 SHAPE_LINES = [[10], [97, 10], [98, 10], [65, 10], [233, 10], [32, 10]]      # Gen_Regex!Lines(1)
 
 
@@ -96,9 +97,9 @@ def main(ctx, args):
         if c["ok"] and not c["flaw"] and c["used"] > c["alloc"]:
             st["unfit"] += 1       # design-level: the estimate is too small for a pattern the parser accepts
         hp = enc(c["p"])
-        if c["eloop"]:
-            # an unbounded repetition of a body that can match the empty string makes the matcher enumerate an
-            # astronomically large search space (known finding, kept visible by CORPUS below): compile only
+        if c["eloop"] or c.get("nest"):
+            # an unbounded repetition of a body that can match the empty string, or of a body that holds another loop, makes the
+            # matcher enumerate an astronomically large search space (known findings, kept visible by CORPUS below): compile only
             st["eloop"] += 1
             reqs.append("M 0 0 0 %d 1 %s -" % (NG, hp))
             meta.append((c, [], (0, 0, 0)))
@@ -134,7 +135,8 @@ def main(ctx, args):
             meta.append(({"p": None, "raw": b.hex()}, ln, (i % 2, (i // 2) % 2, (i // 4) % 2)))
     for ptxt, ltxt in CORPUS:
         reqs.append("M 0 0 0 %d 1 %s %s" % (NG, ptxt.encode().hex(), ltxt.encode().hex()))
-        meta.append(({"p": [ord(ch) for ch in ptxt], "corpus": 1, "eloop": 1, "ok": 1, "flaw": "", "alloc": -1, "used": -1},
+        meta.append(({"p": [ord(ch) for ch in ptxt], "corpus": 1, "eloop": 0 if ptxt in NESTED_CORPUS else 1, "nest": 1 if ptxt in NESTED_CORPUS else 0,
+                      "ok": 1, "flaw": "", "alloc": -1, "used": -1},
                      [ord(ch) for ch in ltxt], (0, 0, 0)))
     resps, crashes = run_probe(exe, reqs, args=["3"], skipkey=lambda r: r.split()[6])
     samples = []
@@ -154,7 +156,7 @@ def main(ctx, args):
         r = parse_resp(resp, line)
         if r["kind"] == "T":
             ctx.violation("pattern %s: no answer within 3 s (compilation or matching does not terminate)" % ptxt, rep,
-                          {"kind": "hang", "flaw": flaw, "eloop": c.get("eloop", 0)})
+                          {"kind": "hang", "flaw": flaw, "eloop": c.get("eloop", 0), "nest": c.get("nest", 0)})
             continue
         if c["p"] is not None and req[0] == "M":
             # binding of the parser / estimate transcription, and clean rejection of malformed input
@@ -166,12 +168,12 @@ def main(ctx, args):
                     ctx.violation("pattern %s (%s): not rejected although its compilation reads or writes out of bounds" %
                                   (ptxt, flaw), rep, {"kind": "accepts-" + flaw})
                     continue
+            elif flaw == "unclosed" and max(c["p"]) > 127:
+                pass    # regex.c skips one *byte* after an unclosed '{': not expressible over code points (neither acceptance nor sizes)
             elif (r["kind"] == "r") != bool(c["ok"]):
                 ctx.violation("pattern %s: compiled=%s but the reference parser says ok=%s" % (ptxt, r["kind"] == "r", c["ok"]),
                               rep, {"kind": "accept-mismatch"})
                 continue
-            elif flaw == "unclosed" and max(c["p"]) > 127:
-                pass    # regex.c skips one *byte* after an unclosed '{': not expressible over code points
             elif r["kind"] == "r" and not c.get("corpus") and (r["alloc"], r["used"]) != (c["alloc"], c["used"]):
                 ctx.violation("pattern %s: program reserved/used %d/%d, the spec's CountEst/EmitLen give %d/%d" %
                               (ptxt, r["alloc"], r["used"], c["alloc"], c["used"]), rep, {"kind": "size-binding"})
